@@ -1,0 +1,1 @@
+//! Hooks of group 'fault' for the /verif machinery.
